@@ -223,6 +223,9 @@ func (s *RelState) refineInt(x string, r Rel, c int64) bool {
 		if strings.HasPrefix(x, "len(") || strings.HasPrefix(x, "cap(") {
 			iv.lo = 0
 		}
+		if lo, hi, ok := maskRange(x); ok {
+			iv.lo, iv.hi = lo, hi
+		}
 		s.ints[x] = iv
 	}
 	switch r {
@@ -295,6 +298,9 @@ func (s *RelState) relConst(x string, c int64) Rel {
 	lo, hi := int64(math.MinInt64), int64(math.MaxInt64)
 	if strings.HasPrefix(x, "len(") || strings.HasPrefix(x, "cap(") {
 		lo = 0
+	}
+	if l, h, ok := maskRange(x); ok {
+		lo, hi = l, h
 	}
 	var neq []int64
 	if iv != nil {
@@ -380,4 +386,25 @@ func (s *RelState) Forget(prefix string) {
 			delete(s.ints, k)
 		}
 	}
+}
+
+// maskRange: a term "(X & const:k)" with k >= 0 lies in [0, k].
+func maskRange(x string) (int64, int64, bool) {
+	if !strings.HasPrefix(x, "(") || !strings.HasSuffix(x, ")") {
+		return 0, 0, false
+	}
+	i := strings.LastIndex(x, " & const:")
+	if i < 0 {
+		return 0, 0, false
+	}
+	k, err := strconv.ParseInt(x[i+len(" & const:"):len(x)-1], 10, 64)
+	if err != nil || k < 0 {
+		return 0, 0, false
+	}
+	// the left operand must be balanced (the & is the top-level operator)
+	left := x[1:i]
+	if strings.Count(left, "(") != strings.Count(left, ")") {
+		return 0, 0, false
+	}
+	return 0, k, true
 }
